@@ -91,9 +91,6 @@ TypeOK == /\ prog \in 1..Len(Programs)
           /\ IsPerm(base.ord, base.elems) /\ base.elems \subseteq Elems
           /\ \A i \in 1..Len(Programs) : SitesOfProg(i) \subseteq Sites
           /\ \A e \in Elems : IsAlike(e) <=> e > Plain
-          /\ Site \in [TabKeys -> {"sorted", "raw", "total", "render"}]
-          /\ Site["relation"] \in {"total", "render"}
-          /\ \A s \in Sites : Site[s] \in {"sorted", "raw"}
 
 (* the two relations: Lt is a strict total order on the elements, LtKey is the
    same order with exactly the alike elements tied *)
@@ -130,6 +127,11 @@ ReportVary ==
 
 (* the program only moves forward, the content of the base never changes *)
 Forward == [][pc' >= pc /\ (pc > 0 => base' = base)]_vars
+
+(* the table is well formed (evaluated once) *)
+ASSUME LET t == Site IN /\ DOMAIN t = TabKeys
+                        /\ t["relation"] \in {"total", "render"}
+                        /\ \A s \in Sites : t[s] \in {"sorted", "raw"}
 
 (* the program table, for the harness (evaluated once) *)
 ASSUME PrintT("@@PROGS@@" \o ToJson(
